@@ -334,6 +334,12 @@ def data_for(arg, var):
 
 CTX_MODES = ("bare", "ctx", "varctx")
 
+#: contexts whose context.variable (left by an earlier variable of the flow) stands in every other relation
+#: to the argument variable: an earlier variable of the SAME type as the typed argument variables
+#: ("coordinate"), an earlier composition that already holds a sub-context of that type, and an earlier
+#: variable without a type (CTX_MODES' "varctx" is an earlier variable of another type)
+VAR_MODES = ("varsame", "varcomposed", "varuntyped")
+
 
 def context_for(i, mode):
     if mode == "bare":
@@ -343,6 +349,17 @@ def context_for(i, mode):
     if mode == "varctx":
         return {"variable": {"name": "p", "type": "particle", "particle": {"name": "p"}},
                 "i": i}
+    if mode == "varsame":
+        return {"variable": {"name": "q", "unit": "mm", "type": "coordinate",
+                             "coordinate": {"name": "q", "unit": "mm"}},
+                "i": i}
+    if mode == "varcomposed":
+        return {"variable": {"name": "q", "unit": "mm", "type": "coordinate",
+                             "coordinate": {"name": "q", "unit": "mm"},
+                             "particle": {"name": "p"}, "compose": ["particle", "coordinate"]},
+                "i": i}
+    if mode == "varuntyped":
+        return {"variable": {"name": "u", "unit": "kg", "latex_name": "u_0"}, "i": i}
     raise ValueError(mode)
 
 
@@ -377,8 +394,29 @@ def private_copy_results(analysis, values):
     return results, "end"
 
 
-def reference_cells(edges, an, var, mode, args, rule="half-open", route_by="arg"):
-    """cell index -> (results, terminal, positions) computed independently for every cell."""
+def template_value(edges, var, mode, k):
+    """The k-th value somebody fills into the TEMPLATE object (the analysis object that is handed to
+    SplitIntoBins) directly: its argument lies in the middle of the first cell; a fresh object with
+    a context of its own on every call (k < 0: before SplitIntoBins was constructed)."""
+    arg = [(a[0] + a[1]) / 2.0 for a in axes_of(edges)]
+    d = data_for(arg if len(arg) > 1 else arg[0], var)
+    c = context_for(1000 + k, mode)
+    return d if c is None else (d, c)
+
+
+def build_template(an, edges, var, mode, pre):
+    """A fresh analysis that already holds *pre* values when it is handed over."""
+    analysis = build_analysis(an, dim_of(edges))
+    for k in range(pre):
+        analysis.fill(template_value(edges, var, mode, -1 - k))
+    return analysis
+
+
+def reference_cells(edges, an, var, mode, args, rule="half-open", route_by="arg", pre=0):
+    """cell index -> (results, terminal, positions, values) computed independently for every cell.
+    *pre*: the analysis held that many values when SplitIntoBins got it (a copy of the sequence is a
+    copy of it as it is then), so every cell's independent analysis is built and pre-filled the same
+    way."""
     d = dim_of(edges)
     part = dict((idx, []) for idx in all_cells(edges))
     for pos, a in enumerate(args):
@@ -390,7 +428,7 @@ def reference_cells(edges, an, var, mode, args, rule="half-open", route_by="arg"
     for idx in all_cells(edges):
         values = build_flow(args, var, mode)        # fresh deep copies for every cell
         sub = [values[p] for p in part[idx]]
-        results, term = private_copy_results(build_analysis(an, d), sub)
+        results, term = private_copy_results(build_template(an, edges, var, mode, pre), sub)
         out[idx] = (results, term, part[idx], sub)
     return out
 
